@@ -74,6 +74,12 @@ FMonClauses(m, ev) ==
                      LET o == Owner(h, m.keys[i], m.rot0) IN
                      o = 0 \/ o \in m.touched \/ ev.e = "raise"
                        \/ (m.cf[o] >= 1 /\ m.fa[o] # <<>> /\ m.fa[o][1] <= h.rt)>>,
+            (* a multi-key read returns the keys of the servers that answered in this call, nothing else (in particular *)
+            (* nothing left over from an earlier call's result)                                                        *)
+            <<"C13-multi-key-read-returns-exactly-what-the-contacted-servers-answered",
+                  (ev.e = "ret" /\ "found" \in DOMAIN ev) =>
+                     { ev.found[i] : i \in DOMAIN ev.found } =
+                        { m.keys[i] : i \in { j \in DOMAIN m.keys : \E p \in m.answered : p[1] = Owner(h, m.keys[j], m.rot0) } }>>,
             <<"C13-recovery-within-two-dead-timeouts-of-traffic",
                   \A s \in (1..h.n) \ m.rot0 : m.out[s] <= 2 * h.dt>> >>
     [] OTHER -> << <<"known-event", FALSE>> >>
